@@ -123,8 +123,9 @@ def _classify(op, a, b):
                             else:
                                 add("formula-differs", f"sheet {i} {ref}: library {gp!r} file {gq!r}")
                         if fp[4] != fq[4]:
-                            # nf _ font _ fill _ border _ alignment _ protection; known finding: the library's xf inherits the
-                            # alignment / protection of cellStyleXfs[0] where the file's xf has none (all other facts equal)
+                            # nf _ font _ fill _ border _ alignment _ protection; was a known finding until the fix (e6602f5): the
+                            # library's xf inherited the alignment / protection of cellStyleXfs[0] where the file's xf has none
+                            # (all other facts equal); the class is kept so that a regression is named
                             xa, xb = fp[4].split("_"), fq[4].split("_")
                             if len(xa) == len(xb) == 6 and xa[:4] == xb[:4] and all(u == w or (w == "-" and u != "-") for u, w in zip(xa[4:], xb[4:])):
                                 add("style-alignment-from-cell-style", f"sheet {i} {ref}: library {'_'.join(xa[4:])} file {'_'.join(xb[4:])}")
@@ -189,8 +190,9 @@ PROP = {
                   "number of numFmts, fonts, fills, borders, xfs; children in any order; optional children / attributes present or not; apply* flags 0 / 1 / true / false / absent - the model of Stylesheet::set_attributes + make_style "
                   "does not panic and maked_style_list holds at EVERY index the facts the decoder assigns to that xf: font name / size / bold / italic / underline / strike / colour, pattern fill type and both colours, the five border edges "
                   "with style and colour and the two diagonal flags, alignment (horizontal, vertical, wrapText, textRotation), number-format id and custom code, protection), C03_style_cell (composed with a cell's s attribute and "
-                  "Spec.decodeCell's style index), C03_style_cell_unstyled, C03_style_components (font, fill, border, alignment, protection, xf: one statement each), and the refutation "
-                  "C03_style_alignment_from_cell_style_fails (known finding, corpus issue_210.xlsx).",
+                  "Spec.decodeCell's style index), C03_style_cell_unstyled, C03_style_components (font, fill, border, alignment, protection, xf: one statement each), and "
+                  "C03_style_alignment_own_record (an xf without <alignment> shows none whatever cellStyleXfs[0] carries; corpus issue_210.xlsx; was known finding C03-style-alignment-from-cell-style, repaired by e6602f5; "
+                  "the refutation is kept for the rule before the fix: C03_style_alignment_from_cell_style_unfixed_fails).",
     "level_note": "The file-level agreement is validated per file, NOT proved for all valid files: there is no Lean model of the whole reader. The model of the cell reader and of the position rule "
                   "(Umya/Model/Reader.lean: readCell, stringItem, sheetPositions) is tied to the code indirectly: the driver runs it next to the spec on every <c> and every <sheetData> of every file; "
                   "cells are reported as model-vs-spec-cells in the informational part of the reply, a POSITION difference on a file the spec accepts is put into the compared part (modelpos=) and fails the check "
@@ -214,7 +216,7 @@ PROP = {
                         "C03_hyperlink_location_with_rid_fails", "C03_merges_partial", "C03_merges_is_decodeSheet", "C03_sheet_list",
                         "C03_defined_names_partial",
                         "C03_style_resolution", "C03_style_cell", "C03_style_cell_unstyled", "C03_style_components",
-                        "C03_style_alignment_from_cell_style_fails",
+                        "C03_style_alignment_own_record", "C03_style_alignment_from_cell_style_unfixed_fails",
                         "C03_merges", "C03_defined_names", "C03_defined_name_areas", "C03_names_home", "C03_sheet_paths", "C03_sheet_part",
                         "C03_table_columns", "C03_book_sheet", "C03_book"],
     "rule": "case = one xlsx file: `c03 reset file <corpus file>`, `c03 reset gen <seed>` (grammar derivation from the seed; productions listed at the top of harness/src/c03.rs and "
@@ -259,8 +261,8 @@ PROP = {
                     "name / sz / scheme carry val, family / charset val an i32 (unwraps), u val a word of ST_UnderlineValues, colour attributes not repeated and indexed / theme unsigned decimals fitting u32; fill: at most one patternFill, NO gradientFill (outside the model), "
                     "patternType a word of ST_PatternType, at most one fgColor / bgColor; border: each of left right top bottom diagonal at most once, style a word of ST_BorderStyle, at most one color per edge; xf: the four ids unsigned decimals fitting u32, at most one alignment "
                     "(horizontal / vertical words of their enumerations, textRotation fitting u32) and one protection; for every cell xf the font / fill / border id inside its table where the component is applied, an applied numFmtId defined in numFmts or one of the library's built-in ids "
-                    "(table regenerated from the source; other ids leave the library's style without number format while the decoder shows the id: outside); defNeutral: the first xf of cellStyleXfs carries no apply* attribute and no alignment / protection child "
-                    "(known finding C03-style-alignment-from-cell-style otherwise)",
+                    "(table regenerated from the source; other ids leave the library's style without number format while the decoder shows the id: outside); defNeutral: the first xf of cellStyleXfs carries no apply* attribute "
+                    "(it may have an alignment / protection child since fix e6602f5: those are not handed on to the cell xfs)",
                     "the style theorems are parametric in `cf` (what `text.parse::<f64>().unwrap_or_default()` + Display make of a float text: font size, tints); the decoder's texts are compared through cf (xfFacts); the driver instantiates cf with the identity and compares bit patterns; "
                     "the underline of a font without <u> is compared as `none` (has_value), although the public getter Font::get_underline() answers \"single\" for it (the enum's default); Color `auto` is not part of the facts; vertical / horizontal inner edges, indent and the other alignment attributes are not compared",
                     "the model reads the element tree: `<v/>` `<t/>` `<is/>` `<r/>` (Empty events, ignored by the library) are not distinguished from the start/end-tag forms; elements are matched by local name "
@@ -284,7 +286,7 @@ PROP = {
                         "both a plain t and runs (C03_cell_t_and_runs_fails, edge 7) and an inline <t> with blanks at its ends but no xml:space (C03_cell_edge_blanks_fails, edge 9)",
                         "C03_shared_formula is reference-level, C03_shared_formula_tokens token-list-level: that tokenizer and spec scanner cut a formula text into the same references is validated by the oracle only (the master/child bookkeeping is now C03_sheet)",
                         "style resolution is proved on the tree-level model (C03_style_resolution) and tied per file through the resolved facts of every cell; NOT covered: gradient fills, cell styles (xfId is not read by the library: "
-                        "inheritance from cellStyleXfs[xfId] is neither modelled in the decoder nor done by the library beyond cellStyleXfs[0] - known finding C03-style-alignment-from-cell-style, C03_style_alignment_from_cell_style_fails), number-format ids "
+                        "inheritance from cellStyleXfs[xfId] is neither modelled in the decoder nor done by the library beyond the apply* flags of cellStyleXfs[0], which validStyles asks to be absent), number-format ids "
                         "that are neither defined in numFmts nor in the library's built-in table, the CODE of a built-in number format (the decoder shows the id only; ECMA-376 18.8.30 and the library's table differ for 14, 22, 37-40, 47), dxfs, "
                         "row and column styles (still three facts per row / column through the decoder's xf index)",
                         "charts, drawings, comments, conditional formats, data validations, pivot tables, theme: not compared",
